@@ -20,6 +20,10 @@ def MM(id, prop, edits, expect=()):
     MUTANTS.append({"id": id, "prop": prop, "edits": edits, "expect": list(expect)})
 
 
+def NN(id, prop, edits):
+    NEUTRAL.append({"id": id, "prop": prop, "edits": edits})
+
+
 def N(id, prop, module, qual, old, new):
     NEUTRAL.append({"id": id, "prop": prop, "edits": [(module, qual, old, new)]})
 
